@@ -314,10 +314,14 @@ type storeCase struct {
 	// since the last Open: a discard happened (the in-memory precommit watcher is not receded by
 	// DiscardPrecommittedTxsSince, so concurrent deliveries stop waiting for their predecessor)
 	discardedSinceOpen bool
-	restarts           int
-	idx                int
-	staleHit           bool
-	lost               bool
+	// ghostPossible: a precommit failed with "buffer is full" after its record had been appended to
+	// the tx log; until the next accepted delivery or discard that record is found by a reopening
+	ghostPossible bool
+	trace         []string
+	restarts      int
+	idx           int
+	staleHit      bool
+	lost          bool
 }
 
 func (sc *storeCase) find(text string) {
@@ -336,6 +340,26 @@ func (sc *storeCase) open() error {
 
 func (sc *storeCase) add(term string, js map[string]any) {
 	sc.steps = append(sc.steps, stepRec{term, js})
+	d := fmt.Sprint(js["op"])
+	if w, ok := js["what"]; ok {
+		d += ":" + fmt.Sprint(w)
+	}
+	if t, ok := js["t"]; ok {
+		d += fmt.Sprintf("(%v)", t)
+	}
+	if o, ok := js["out"]; ok && fmt.Sprint(o) != "0" {
+		d += "=err"
+	}
+	sc.trace = append(sc.trace, d)
+}
+
+// schedule so far (last steps), for findings
+func (sc *storeCase) sched() string {
+	t := sc.trace
+	if len(t) > 14 {
+		t = t[len(t)-14:]
+	}
+	return strings.Join(t, ", ")
 }
 
 // checkPrefix: the falsifier's direct statement. Every transaction the replica holds
@@ -418,10 +442,14 @@ func (sc *storeCase) deliver(b []byte, skip bool, genuineID uint64, what string)
 	case 2:
 		sc.find(fmt.Sprintf("ReplicateTx panicked (%s): %v; export %x", what, err, b))
 	case 1:
+		if strings.Contains(errStr(err), "buffer is full") {
+			sc.ghostPossible = true
+		}
 		if before != after {
 			sc.find(fmt.Sprintf("rejected delivery (%s, error %v) changed the replica state %v -> %v; export %x", what, err, before.js(), after.js(), b))
 		}
 	case 0:
+		sc.ghostPossible = false
 		id := hdr.ID
 		var palh [sha256.Size]byte
 		known := id >= 1 && id <= sc.h.n
@@ -482,17 +510,21 @@ func (sc *storeCase) restart() error {
 	after := obsOf(sc.replica)
 	sc.add(fmt.Sprintf("SRestart %s", after.term(sc.in)), map[string]any{"op": "restart", "after": after.js()})
 	sc.stats["restart"]++
-	if after.pid < before.pid && !sc.discardedSinceOpen {
-		// (after a discard in the same session, reopening takes the discarded records back and drops
-		// what was precommitted behind them: documented at DiscardPrecommittedTxsSince, and modelled)
-		sc.find(fmt.Sprintf("Close+Open dropped precommitted transactions %d..%d of the replica store (durable precommits already reported to a primary are lost)", after.pid+1, before.pid))
+	switch {
+	case after.pid < before.pid:
+		sc.find(fmt.Sprintf("Close+Open dropped precommitted transactions %d..%d of the replica store (durable precommits already reported to a primary are lost); schedule: %s", after.pid+1, before.pid, sc.sched()))
+	case !sc.ghostPossible && (after.pid != before.pid || after.palh != before.palh):
+		// since /repo 8728288 DiscardPrecommittedTxsSince cuts the tx log: nothing that was discarded
+		// may be found again by the reload loop
+		sc.find(fmt.Sprintf("Close+Open brought back discarded transactions: precommitted state %d/%x before, %d/%x after; schedule: %s", before.pid, before.palh[:4], after.pid, after.palh[:4], sc.sched()))
 	}
+	sc.ghostPossible = false
 	if after.cid != before.cid || after.calh != before.calh {
 		sc.find(fmt.Sprintf("Close+Open changed the committed state of the replica %v -> %v", before.js(), after.js()))
 	}
 	sc.discardedSinceOpen = false
 	sc.restarts++
-	sc.recheckDiverged() // reopening takes discarded records back
+	sc.recheckDiverged()
 	return nil
 }
 
@@ -521,6 +553,7 @@ func (sc *storeCase) discard(t uint64) {
 		sc.find(fmt.Sprintf("DiscardPrecommittedTxsSince(%d) changed the COMMITTED state %v -> %v", t, before.js(), after.js()))
 	}
 	if cls == 0 && n > 0 {
+		sc.ghostPossible = false
 		sc.discardedSinceOpen = true
 		sc.recheckDiverged()
 	}
@@ -580,6 +613,8 @@ func (sc *storeCase) batch(ids []uint64, skip bool) {
 	sc.add(fmt.Sprintf("SBatch %s %s %d %s", vk.Bool(skip), vk.List(terms), n, after.term(sc.in)),
 		map[string]any{"op": "batch", "ids": ids, "accepted": n, "after": after.js()})
 	sc.stats["batch"]++
+	// a member of the batch may have failed with "buffer is full" after the last accepted one
+	sc.ghostPossible = n < len(ids) && sc.c.ext && sc.c.maxActive < 1000
 }
 
 func (sc *storeCase) emit(kind string, nontrivial bool) {
